@@ -296,8 +296,8 @@ def run(chk):
     # G1: every first step, all sizes
     g1, s1 = reldl.bfs("MC_RelBulk.tla", "Gen_RelBulk.cfg", {"MaxOps": 1, "SizesFirst": tset(sizes_first), "SizesLater": "{0}"})
     # G2: all two-step behaviours over small sizes (DML before / after a batch, batch after batch)
-    later = [0, 2, 3] + ([caps["insert_each"] + 1] if thorough else [])
-    g2, s2 = reldl.bfs("MC_RelBulk.tla", "Gen_RelBulk.cfg", {"MaxOps": 2, "SizesFirst": "{0,1,3}", "SizesLater": tset(later)})
+    later = ([0, 2, 3, caps["insert_each"] + 1] if thorough else [0, 3])
+    g2, s2 = reldl.bfs("MC_RelBulk.tla", "Gen_RelBulk.cfg", {"MaxOps": 2, "SizesFirst": "{0,1,3}" if thorough else "{1,3}", "SizesLater": tset(later), "WithTxn": thorough}, timeout=2400)
     g2 = [e for e in g2 if len(e["hist"]) == 2]
     def cls(e):
         h = e["hist"]
